@@ -30,7 +30,7 @@ RULE = (
     "configurations with a drop or rebuild in between; distinct = distinct history JSON."
 )
 ASSUMPTIONS = ["NumPy twin is the reference", "sync scheduler", "the listed config keys are applied with dask.config.set around each step (construction-time and graph-build-time reads are both covered because build and compute steps draw independently)"]
-EXCLUDE = ("KF-layout-drift-over-shuffle", "KF-minmax-empty", "KF-pad-wide", "KF-tensordot-int-dtype", "KF-argext-ties-axis-none", "KF-setitem-int-with-negstep")
+EXCLUDE = exclusions.ALL
 
 CFG = {
     "array.optimize-graph": [True, True, False],
